@@ -192,11 +192,11 @@ pub mod checks {
             }
             rep.fail(&format!("{}.order", g), &f, w(detail()));
         } else if gp.iter().zip(wp.iter()).any(|(a, b)| a.1 != b.1) {
-            // the findings on path text concern member names that need escaping or look quoted: the input belongs to that class only
-            // if such a name lies on the (expected) path of a node whose path is wrong, not merely somewhere in the document
-            let special = gp.iter().zip(wp.iter()).filter(|(a, b)| a.1 != b.1).all(|(_, b)| b.1.contains('\\') || b.1.contains("['\""));
+            // the findings on path text are ONE specific wrong text per node (the name or the selector text copied verbatim): a path
+            // that is neither the Normalized Path nor that text is a different violation and is not covered by them
+            let known = gp.iter().zip(want.iter()).filter(|(a, b)| a.1 != b.path).all(|(a, b)| a.1 == b.kpath);
             let mut f = feats_of();
-            if !special { f.retain(|x| !x.starts_with("member-name-")); }
+            if !known { f.retain(|x| !x.starts_with("member-name-") && !x.starts_with("escape-") && x != "double-quoted-name-selector"); f.push("path-differs-from-known-path-text".to_string()); }
             rep.fail(&format!("{}.path", g), &f, w(detail()));
         }
         if rep.samples.len() < 6 && !want.is_empty() && rep.evaluations % 997 == 1 {
@@ -595,7 +595,7 @@ pub mod checks {
             if let Some((_, b)) = only { if di != b { continue; } }
             // every node of the document, with its RFC normalized path
             let mut all = vec![];
-            descendants(&N { v: d, path: "$".to_string() }, &mut all);
+            descendants(&N { v: d, path: "$".to_string(), kpath: "$".to_string() }, &mut all);
             let feats = features(&[], d);
             let mut seen = std::collections::BTreeSet::new();
             for n in &all {
@@ -628,7 +628,7 @@ pub mod checks {
             if let Some((_, b)) = only { if di != b { continue; } }
             rep.evaluations += 1;
             let mut all = vec![];
-            descendants(&N { v: d, path: "$".to_string() }, &mut all);
+            descendants(&N { v: d, path: "$".to_string(), kpath: "$".to_string() }, &mut all);
             let want: Vec<(usize, String)> = all.iter().filter(|n| n.v.is_array() || n.v.is_object()).map(|n| (n.v as *const Value as usize, n.path.clone())).collect();
             let got = catch_unwind(AssertUnwindSafe(|| ptr_seq(crate::query::segment::verif_x::process_descendant(Pointer::new(d, "$".to_string())))));
             let feats = features(&[], d);
@@ -661,7 +661,7 @@ pub mod checks {
                 rep.evaluations += 1;
                 // input nodelist: the children of the document (several input nodes) or the root alone
                 let ctx = Ctx::new(d);
-                let input: Vec<N<Value>> = { let r = N { v: d, path: "$".to_string() }; let mut v = children(&r); if v.is_empty() { v.push(r); } v };
+                let input: Vec<N<Value>> = { let r = N { v: d, path: "$".to_string(), kpath: "$".to_string() }; let mut v = children(&r); if v.is_empty() { v.push(r); } v };
                 let want: Vec<(usize, String)> = input.iter().flat_map(|n| c.iter().flat_map(|s| ctx.select(s, n)).collect::<Vec<_>>()).map(|n| (n.v as *const Value as usize, n.path)).collect();
                 let st = State::data(d, Data::Refs(input.iter().map(|n| Pointer::new(n.v, n.path.clone())).collect()));
                 let got = catch_unwind(AssertUnwindSafe(|| ptr_seq(crate::query::segment::verif_x::process_selectors(st, c).data)));
@@ -702,6 +702,8 @@ pub mod checks {
                 let mut feats = vec![];
                 if escape_name(n) != *n { feats.push("member-name-needs-escaping".to_string()); }
                 if n.len() >= 2 && n.starts_with('\'') && n.ends_with('\'') { feats.push("member-name-looks-quoted".to_string()); }
+                // the finding covers one specific wrong text (the name copied verbatim): anything else is a different violation
+                if got != want && got != known_key_path(p, n) { feats.clear(); feats.push("path-differs-from-known-path-text".to_string()); }
                 if got != want { rep.fail("Pointer::key.text", &feats, json!({"parent": p, "name": n, "qi": ni, "observed": got, "expected": want})); }
             }
         }
